@@ -25,7 +25,8 @@ def main(prop, path):
             drv.ask({"op": "world", "world": rep["world"]})
             view, act = C.j2view(rep["view"]), C.j2action(rep["action"])
             try:
-                new = w._execute_action(view, act)
+                from .worldgen import world_step
+                new = world_step(w, view, act)
                 raised = None
             except Exception as e:
                 new, raised = None, repr(e)
